@@ -19,18 +19,19 @@ INTS = {np.int8: [-128, -1, 0, 127], np.uint8: [0, 1, 255], np.int16: [-32768, 0
         np.uint16: [0, 65535], np.int32: [-2 ** 31, -1, 0, 2 ** 31 - 1], np.uint32: [0, 2 ** 32 - 1]}
 
 
-def roundtrip(arr):
-    data = compress(BinaryCIFData(arr), float_tolerance=TOL)
+def roundtrip(arr, tol=None):
+    data = compress(BinaryCIFData(arr), float_tolerance=TOL if tol is None else tol)
     back = BinaryCIFData.deserialize(data.serialize())
     return back.array, [type(e).__name__ for e in data.encoding]
 
 
-def check(arr):
+def check(arr, tol=None):
     """returns failure text or None"""
+    TOLV = TOL if tol is None else tol
     try:
         with warnings.catch_warnings():
             warnings.simplefilter("ignore")
-            back, encs = roundtrip(arr)
+            back, encs = roundtrip(arr, tol)
     except (ValueError, OverflowError, TypeError) as e:
         return None          # rejected with an error: allowed by the property
     back = np.asarray(back)
@@ -46,7 +47,7 @@ def check(arr):
     err = np.abs(back[fin].astype(np.float64) - arr[fin].astype(np.float64))
     # float32 inputs carry their own representation error
     eps = np.finfo(arr.dtype).eps
-    if np.any(err > (TOL + 4 * eps) * np.abs(arr[fin].astype(np.float64)) + 1e-300):
+    if np.any(err > (TOLV + 4 * eps) * np.abs(arr[fin].astype(np.float64)) + 1e-300):
         return f"decoded {back.tolist()} (error {err.max():.3g}) via {encs}"
     return None
 
@@ -64,6 +65,15 @@ def main():
                     fails.append({"dtype": dt.__name__, "array": [repr(x) for x in combo], "what": f})
                 elif len(samples) < 3 and n == 3:
                     samples.append({"dtype": dt.__name__, "array": [repr(x) for x in combo]})
+    # magnitudes and tolerances: the relative tolerance passed to compress() must hold for small and large values alike
+    SMALL = [1.321746e-4, 7.7123456e-3, 1.004899415, 0.25, 123.456789012, 3.3333333333e-6]
+    for tol in (1e-3, 1e-6, 1e-10):
+        for combo in itertools.product(SMALL, repeat=2):
+            arr = np.array(combo + (combo[0] * 3,), dtype=np.float64)
+            evals += 1
+            f = check(arr, tol)
+            if f:
+                fails.append({"dtype": "float64", "array": [repr(x) for x in arr.tolist()], "tolerance": tol, "what": f})
     for dt, vals in INTS.items():
         for n in (1, 2, 3):
             for combo in itertools.product(vals, repeat=n):
